@@ -2337,6 +2337,8 @@ class Interp:
                 v = fr.store.vars.get(('$hv', cls, attr))
             if v is None:
                 v = self.heap.get((cls, attr))
+            if v is None and '@' in cls:
+                v = self.heap.get((base_class(cls), attr))
             if v is not None:
                 if tag is not None and not (isinstance(tag, tuple) and tag[0] == 'ctor'):
                     return map_tags(v, lambda t: tag)
@@ -4373,6 +4375,21 @@ class Interp:
                 tag = '?'
         else:
             tag = '*'
+        if '@' not in oname and cname != self.line_class and any(self.has_behaviour(val) for _, val, _ in stores):
+            # an object that holds classes / callables (exception types of a context manager, a builder ...): what it does
+            # depends on where it was made, so its attributes are kept per construction site
+            oname = '{}@a{}:{}'.format(cname, getattr(node, 'lineno', 0), getattr(node, 'col_offset', 0))
+            order = self.attr_order.setdefault(oname, [])
+            for attr, val, snode in stores:
+                if attr not in order:
+                    order.append(attr)
+                hk = (oname, attr)
+                old = self.heap.get(hk, BOT)
+                new = join(old, erase_tags(val))
+                if new != old:
+                    self.heap[hk] = new
+                    self.changed = True
+                    self.why.append(('heap', hk, new - old))
         ev = self.ev_construct.get(id(node))
         if ev is None:
             self.ev_construct[id(node)] = {'node': node, 'qual': fr.qual, 'cls': {cname}, 'tags': {tag}}
@@ -4382,6 +4399,17 @@ class Interp:
         if cname == self.line_class:
             self.ev_line[id(node)] = [(fr.qual, node, args)]
         return av(('obj', oname, tag))
+
+    @staticmethod
+    def has_behaviour(val, _depth=0):
+        for a in val:
+            if a[0] in ('cls', 'fn', 'clo', 'lam', 'partial', 'bound'):
+                return True
+            if a[0] == 'seq' and _depth < 2 and any(Interp.has_behaviour(e, _depth + 1) for e in a[2]):
+                return True
+            if a[0] in ('list', 'set') and _depth < 2 and Interp.has_behaviour(a[1], _depth + 1):
+                return True
+        return False
 
     def construct_builtin(self, fr, cname, args, node):
         if cname in BUILTIN_EXC_BASES:
